@@ -396,10 +396,19 @@ pub fn generate(property: &str, tier: &str, seed: u64, index: u64) -> Plan {
         "C18" => c18(property, seed, index),
         "C15" => c15(property, seed, index),
         "C16" => c16(property, seed, index),
+        "C17" if index % 5 == 4 => {
+            // a really diverging game with detection on: several mismatching reports can be pending
+            // at once, and the order in which they are reported must not depend on hash order either
+            let mut p = c09(property, seed, 1);
+            p.scenario = "c17-divergence".into();
+            // the premise is "same clock readings": a clock that moves with every read would hand
+            // different instants to endpoints that are merely visited in another order
+            p.cfg.clock_bump_us = 0;
+            p
+        }
         "C17" => {
             let mut p = s1(property, if index % 2 == 0 { "s1-3to4peers" } else { "s1" }, seed, &S1Opts { min_peers: if index % 2 == 0 { 3 } else { 2 }, desync: index % 3 == 0, allow_lockstep: true, frames_lo: 80, frames_hi: 500, long_run_pct: 3, ..Default::default() });
-            // several local players per peer are the interesting case
-            let _ = &mut p;
+            p.cfg.clock_bump_us = 0;
             p
         }
         "C13" => match index % 8 {
@@ -1285,6 +1294,23 @@ pub fn c18(property: &str, seed: u64, index: u64) -> Plan {
             let per = 1_000_000 / p.cfg.fps as u64;
             p.horizon_us = c.range(&[3], 3000, 20_000) * per;
             p.scenario = "c18-all-local".into();
+            // half of them with spectators: still no remote *player*, but endpoints to feed
+            if c.chance(&[9], 500_000) {
+                for k in 0..c.range(&[10], 1, 2) {
+                    let id = p.nodes.len();
+                    p.nodes.push(NodeSpec {
+                        kind: NodeKind::Spectator { host: 0, max_frames_behind: 10, catchup_speed: 2 },
+                        tick: TickSpec { start_us: 3000 * (k + 1), period_us: per, ..Default::default() },
+                        wall_offset_ms: 5_000_000 + k,
+                        drain: true,
+                    });
+                    let lat = ms(*c.pick(&[11, k], &[0u64, 5, 30]));
+                    p.links.push(LinkSpec { from: 0, to: id, base_us: lat, jitter_us: lat / 2, loss_ppm: *c.pick(&[12, k], &[0u32, 20_000]), dup_ppm: 0 });
+                    p.links.push(LinkSpec { from: id, to: 0, base_us: lat, jitter_us: lat / 2, loss_ppm: 0, dup_ppm: 0 });
+                }
+                p.horizon_us = p.horizon_us.min(6000 * per);
+                p.scenario = "c18-local-players-with-spectators".into();
+            }
             p
         }
         1 => {
